@@ -33,21 +33,35 @@ pub fn gen(seed: u64, cases: usize, flavour: &str, path: &str) {
         let constant = constant_only || g.rng.chance(1, 3);
         g.stats.bump(if constant { "constant_prices_zero_spread" } else { "moving_prices" });
         let mut px = [40u64, 80, 120];
+        // the same dataset is loaded date by date, or one symbol at a time (as the repository's own perf test does);
+        // in the second case the first symbol is quoted on every date, so that `dates` still comes out increasing
+        let bysym = g.rng.chance(1, 4);
+        g.stats.bump(if bysym { "dataset_loaded_symbol_by_symbol" } else { "dataset_loaded_date_by_date" });
+        let mut entries: Vec<(i64, usize, f64, f64)> = Vec::new();
         for d in 0..nd {
-            let mut l = String::new();
-            let mut nq = 0;
-            for (k, s) in SYMS.iter().enumerate() {
-                if d == 0 || !g.rng.chance(1, 6) {
+            for k in 0..SYMS.len() {
+                if d == 0 || (bysym && k == 0) || !g.rng.chance(1, 6) {
                     if !constant {
                         px[k] = (px[k] as i64 + g.rng.below(9) as i64 - 4).max(2) as u64;
                     }
                     let bid = px[k] as f64 * 0.5;
                     let ask = if constant { bid } else { bid + g.rng.below(2) as f64 * 0.5 };
-                    l += &format!(" {} {} {}", s, fb(bid), fb(ask));
-                    nq += 1;
+                    entries.push((100 + d, k, bid, ask));
                 }
             }
-            g.line(&format!("Q D {} {}{}", 100 + d, nq, l));
+        }
+        if bysym {
+            for k in 0..SYMS.len() {
+                for e in entries.iter().filter(|e| e.1 == k) {
+                    g.line(&format!("Q D {} 1 {} {} {}", e.0, SYMS[k], fb(e.2), fb(e.3)));
+                }
+            }
+        } else {
+            for d in 0..nd {
+                let es: Vec<_> = entries.iter().filter(|e| e.0 == 100 + d).collect();
+                let l: String = es.iter().map(|e| format!(" {} {} {}", SYMS[e.1], fb(e.2), fb(e.3))).collect();
+                g.line(&format!("Q D {} {}{}", 100 + d, es.len(), l));
+            }
         }
         let n = 1 + g.rng.below(3);
         let mut wl = String::new();
